@@ -124,7 +124,8 @@ def required_cells(tier):
     return ["paste:empty-left", "paste:empty-right", "paste:both-empty", "stringify", "stringify+paste", "rescan-takes-following-source",
             "name-without-paren", "recursion:direct", "recursion:mutual", "recursion:argument-borne", "variadic:0", "variadic:1",
             "variadic:many", "variadic:named", "nested-parens-in-argument", "form:define", "form:-D", "form:mixed",
-            "-D:object", "-D:empty-value", "-D:valued", "-D:function-like", "via-#if", "via-#include", "re-evaluated-define", "deep-chain", "class:E", "class:R"]
+            "-D:object", "-D:empty-value", "-D:valued", "-D:function-like", "via-#if", "via-#include", "re-evaluated-define", "deep-chain", "class:E", "class:R",
+            "layout:forced-include-defaults-a-command-line-macro", "layout:headers-outside-root", "layout:headers-inside-root"]
 
 
 # ------------------------------------------------------------- CBI driver --
@@ -563,6 +564,68 @@ def include_class(ctx, work):
                          cells=["via-#include"], cls="include", nontrivial=(defs, inc))
 
 
+def layout_class(ctx, work):
+    """Where the definitions come from: a forced include (-include) that defaults a macro the command line sets with -D,
+    and headers found through a search directory that lies OUTSIDE the analysis root (angle, quote and computed form).
+    The conditions use function-like macros from those headers; gcc with the same options is the oracle."""
+    acc = ctx.acc
+    main = "\n".join([
+        "cbi_m_m_1;", "#include <cfg/version.h>", "#include OPTS", "#if SCALE(2) == 2 * LEVEL", "cbi_m_m_5;", "#else", "cbi_m_m_7;", "#endif",
+        "#if TWICE(LEVEL) == 6", "cbi_m_m_10;", "#else", "cbi_m_m_12;", "#endif",
+        "#if CFG_AT_LEAST(2, 1) && OPT_LEVEL == 3", "cbi_m_m_15;", "#else", "cbi_m_m_17;", "#endif",
+        "#if LEVEL == 3", "cbi_m_m_20;", "#elif LEVEL == 1", "cbi_m_m_22;", "#else", "cbi_m_m_24;", "#endif", ""])
+    config_h = "#ifndef LEVEL\n#define LEVEL 1\n#endif\n#define SCALE(x) ((x)*LEVEL)\n#define TWICE(x) ((x)+(x))\n"
+    version_h = "#define CFG_MAJOR 2\n#define CFG_MINOR 3\n#define CFG_AT_LEAST(a, b) (CFG_MAJOR > (a) || (CFG_MAJOR == (a) && CFG_MINOR >= (b)))\n" \
+                "#define OPTS <cfg/options.h>\n"
+    options_h = "#define OPT_LEVEL 3\n"
+    idx = 0
+    for level in (None, "LEVEL=3", "LEVEL=1", "LEVEL=7", "LEVEL"):
+        for hdr_where in ("inside", "outside"):
+            for kind in ("I", "isystem"):
+                for inc_sp in ("abs", "rel"):
+                    idx += 1
+                    if not ctx.mine(idx):
+                        continue
+                    d = os.path.join(work, f"layout{idx}")
+                    shutil.rmtree(d, ignore_errors=True)
+                    root = os.path.join(d, "root")
+                    hdr = os.path.join(root, "third") if hdr_where == "inside" else os.path.join(d, "elsewhere")
+                    os.makedirs(os.path.join(root, "src"))
+                    os.makedirs(os.path.join(hdr, "cfg"))
+                    for path, text in ((os.path.join(root, "src", "main.c"), main), (os.path.join(root, "config.h"), config_h),
+                                       (os.path.join(hdr, "cfg", "version.h"), version_h), (os.path.join(hdr, "cfg", "options.h"), options_h)):
+                        with open(path, "w") as f:
+                            f.write(text)
+                    src = os.path.join(root, "src", "main.c")
+                    inc = os.path.join(root, "config.h") if inc_sp == "abs" else "../config.h"
+                    defines = [level] if level else []
+                    g = gcc.preprocess(src, defines=defines, search=[(kind, hdr)], includes=[inc], cwd=os.path.dirname(src))
+                    if not g["ok"]:
+                        acc.excluded("gcc-diagnostic", cls="layout")
+                        continue
+                    cells = ["layout:forced-include-defaults-a-command-line-macro" if level else "layout:forced-include",
+                             "layout:headers-" + hdr_where + "-root"]
+                    case = {"defines": defines, "headers": hdr_where, "kind": kind, "include": inc}
+                    try:
+                        from codebasin import config
+                        argv = ["-D" + x for x in defines] + ["-I" if kind == "I" else "-isystem", hdr, "-include", inc, "-c", src]
+                        cfgs = [c for c in config.ArgumentParser("gcc").parse_args(argv) if c.pass_name == "default"]
+                        c0 = cfgs[0]
+                        entry = {"file": src, "defines": list(c0.defines), "include_paths": list(c0.include_paths), "include_files": list(c0.include_files)}
+                        state, _ = cbi.run_find(root, {"p": [entry]})
+                        used = cbi.used_lines(state, src, "p")
+                        lines = main.split("\n")
+                        got = {ln for ln in used if lines[ln - 1].startswith("cbi_m_")}
+                        want = {int(m.rsplit("_", 1)[1]) for m in g["markers"] if m.startswith("cbi_m_m_")}
+                        ok, obs = got == want, sorted(got)
+                    except Exception as e:
+                        ok, obs, want = False, f"{type(e).__name__}: {e}", set()
+                    if ok:
+                        acc.held(cells=cells, cls="layout", nontrivial=case)
+                    else:
+                        acc.violated({"input": case, "witness": dict(case, expected=sorted(want), observed=obs)}, cells=cells, cls="layout", nontrivial=case)
+
+
 REEVAL = [
     (["#define THIRD(a,b,c,...) c", "#define COUNT(...) THIRD(__VA_ARGS__, 2, 1, 0)"], ["COUNT(x, y) == 2", "COUNT(x) == 1"]),
     (["#define SUM(a, rest...) a + rest"], ["SUM(1, 2 + 40) == 43", "SUM(1, 2) == 3"]),
@@ -641,6 +704,7 @@ def run_shard(ctx):
     if batch:
         process_batch(ctx, drv, batch, work)
     arith_class(ctx, drv, work)
+    layout_class(ctx, os.path.join(ctx.scratch, "layout"))
     include_class(ctx, work)
     reeval_class(ctx, work)
 
